@@ -433,10 +433,11 @@ class WSPool(interfaces.TokenInterface):
             no_response = (message.opt.no_response or 0) & (
                 1 << message.code.class_ - 1
             ) != 0
+            # used up here whatever becomes of the response: the object may
+            # be returned again for a request without the option
+            message.opt.no_response = None
             if no_response:
                 return
-
-            message.opt.no_response = None
 
         message.remote._send_message(message)
 
